@@ -290,6 +290,41 @@ func (c *Ctx) isElementCallback(call ssa.CallInstruction) bool {
 	if closureFn(cc.Value) != nil {
 		return false
 	}
+	// a function taken from a package-level table is the library's own code, not a consumer
+	v := cc.Value
+	for i := 0; i < 10; i++ {
+		switch x := v.(type) {
+		case *ssa.Field:
+			v = x.X
+			continue
+		case *ssa.Index:
+			v = x.X
+			continue
+		case *ssa.FieldAddr:
+			v = x.X
+			continue
+		case *ssa.IndexAddr:
+			v = x.X
+			continue
+		case *ssa.Lookup:
+			v = x.X
+			continue
+		case *ssa.UnOp:
+			if x.Op == token.MUL {
+				v = x.X
+				continue
+			}
+		case *ssa.Alloc:
+			// the local copy of a table entry (for _, e := range table)
+			if vals := storesTo(x); len(vals) == 1 {
+				v = vals[0]
+				continue
+			}
+		case *ssa.Global:
+			return false
+		}
+		break
+	}
 	// dynamic call of a func value with parameters (an element consumer)
 	return sig.Params().Len() >= 1
 }
